@@ -2138,6 +2138,11 @@ class LogicalFile:
                     if isinstance(v, EFLRItem) and id(v) not in own_item_ids:
                         raise RuntimeError(f"{v}, referenced by {attr}, has not been added to the same logical file")
 
+        for nf_data in self._no_format_frame_data:
+            if id(nf_data.no_format_object) not in own_item_ids:
+                raise RuntimeError(f"{nf_data.no_format_object}, referenced by no-format frame data, "
+                                   f"has not been added to the same logical file")
+
     def _check_defining_origin_params(self) -> None:
         """Check that the file_id of the defining origin is the same as the ID of the header."""
 
